@@ -180,3 +180,31 @@ Definition run_step (fk : bytes) (scale : N) (s : run_state) (o : hop) : run_sta
          end).
 Definition run_pool (fk : bytes) (scale : N) (h : list hop) : run_state :=
   fold_left (run_step fk scale) h run_init.
+
+(* ---------- several sessions: crash after the first k durable operations, then a new SyncedPool over the
+   surviving databases and Initialize(names, nil) (names in the order o): every name is opened, then
+   CheckDBsSynced; when it fails the application does not start (None).  Unflushed writes and queued
+   drops are lost; the specification's contents become the surviving contents; flushes that had not
+   completed by k never completed. *)
+Definition pool_of_world (w : world) : pool :=
+  mkPool (map (fun nc => (fst nc, mkWr true [])) w) [].
+Definition restart_pool (fk : bytes) (s : run_state) (k : nat) (o : list name) : option run_state :=
+  let w := crash (rs_log s) k in
+  match check_synced fk w with
+  | COk _ =>
+      Some (mkRun (pool_of_world w) (mkSpec w [])
+                  (firstn k (rs_log s) ++ map DOpen (arrange o (map fst w)))
+                  (filter (fun rc => Nat.leb (r_pos rc) k) (rs_recs s)))
+  | _ => None
+  end.
+(* sessions = (history, crash point, Initialize order); the state the next session starts in *)
+Fixpoint run_sessions (fk : bytes) (scale : N) (s : run_state)
+                      (ss : list (list hop * nat * list name)) : option run_state :=
+  match ss with
+  | [] => Some s
+  | (h, k, o) :: rest =>
+      match restart_pool fk (fold_left (run_step fk scale) h s) k o with
+      | Some s' => run_sessions fk scale s' rest
+      | None => None
+      end
+  end.
